@@ -45,10 +45,17 @@ func newTB() *termBuilder {
 func T(v ssa.Value) *Term {
 	t := newTB().of(v, 0)
 	if f := valueFunc(v); f != nil && isNewHelper(f) {
+		// the function whose helpers were enumerated last (blocksDeep, CallsIn, DBOps, …) is
+		// the context the rule is working in
+		if termRoot != nil && termRoot != f && len(helperChains(termRoot, f)) > 0 {
+			return liftTerm(termRoot, f, t, false)
+		}
 		return liftToKnownRoot(t, f, 0)
 	}
 	return t
 }
+
+var termRoot *ssa.Function
 
 // liftToKnownRoot expresses a term of a new helper in the vocabulary of the function that
 // calls it when there is exactly one call site (repeatedly, up to a known function);
